@@ -548,6 +548,16 @@ func init() {
 			}
 			sb.WriteString("]\n\n")
 		}
+		// ---- package-level mutable state of pkg/lql (a memo of built filters / parsed texts makes what a text means depend on
+		// what the process built before)
+		{
+			names := c12MutablePackageVars("pkg/lql")
+			doc := "none"
+			if len(names) > 0 {
+				doc = strings.Join(names, ", ")
+			}
+			fmt.Fprintf(&sb, "/-- package-level variables of pkg/lql that the package's own code writes or whose type is a map / channel / sync.* container: %s -/\ndef lqlMutablePackageVars : Nat := %d\n\n", doc, len(names))
+		}
 		// ---- strconv.IsPrint
 		sb.WriteString("/-- maximal ranges of runes with `strconv.IsPrint` (Go toolchain that builds the harness) -/\ndef isPrintRanges : Array (Nat × Nat) := #[")
 		first := true
